@@ -443,8 +443,8 @@ impl Property for C18 {
     }
     fn cases(&self, tier: Tier) -> u64 {
         match tier {
-            Tier::Quick => 60_000,
-            Tier::Thorough => 600_000,
+            Tier::Quick => 150_000,
+            Tier::Thorough => 1_500_000,
         }
     }
     fn required_labels(&self, _tier: Tier) -> Vec<&'static str> {
